@@ -83,6 +83,9 @@ class Model(object):
         name = op[0]
         a = op[1:]
         order, hit, miss, soft, log = st
+        if name in ('set', 'getitem', 'get', 'setdefault', 'del', 'pop', 'contains') and isinstance(a[0], (list, dict, set)):
+            # a key that cannot be hashed: the call fails on its argument and nothing changes
+            return [(st, ('exc', 'TypeError'))]
         if name == 'set':
             return [(self._set(st, a[0], a[1]), ('ok', None))]
         if name == 'getitem':
